@@ -178,6 +178,42 @@ CLAIMS["C14"] = dict(
     technique="contract-based deductive verification: round-trip postconditions of the real to_hdf5/from_hdf5 pairs over an abstract store; bounded native run for shapely/h5py",
     note=TRUST + " h5py replaced by an abstract store (assumed contract).")
 
+CLAIMS["C01"] = dict(
+    category="proof",
+    text="On the real code, for all meshes and inputs: solve_for_observables returns (mu, Js, Jn) with divergence(Js+Jn) = boundary-flux(mu_boundary) at every "
+         "cell (formal linear-algebra identity over the builder contracts L = D o G of C03 and A5), static and time-dependent A; update_mu_boundary sets on "
+         "the edges of terminal t the density -(1/L_t) sum_{s!=t} I_s (= I_t/L_t when balanced), leaves every other boundary edge untouched and keeps its "
+         "cache consistent (3 terminals, also when a callable omits a terminal); per-edge lemmas: half of each terminal edge's flux goes to each end cell, cells "
+         "touching no terminal edge receive nothing, the Poisson problem is compatible; the constructor scales the requested currents to 4 (I/length unit)/K0 "
+         "for SYMBOLIC unit scale factors; update() sets the boundary condition once for state['time'] before solving and returns the triple of its last solve. "
+         "Acceptance of balanced currents is an IEEE statement: decided only by the bounded native search (10k assignments x unit factors; labelled bounded). "
+         "One defect repaired by a fix: commit.",
+    design_ref="DESIGN.md section 4 C01",
+    technique="contract-based deductive verification: linear-algebra identity over callee contracts, scatter/cached-state contract, symbolic-units constructor run; bounded native search for the float acceptance clause",
+    note=TRUST + " A5 (exact sparse solve); terminal boundary-edge sets disjoint; Device.terminal_info (which edges belong to a terminal, matplotlib) not under contract; frame 0 is the initial condition.")
+CLAIMS["C08"] = dict(
+    category="proof",
+    text="The real TDGLSolver.__init__ and Device.Bc2/A0/K0 executed on a symbolic mesh with a pint model whose length, field and current unit scale factors "
+         "are SYMBOLIC positive reals: the dimensionless vector potential equals A_phys/(Bc2 xi), the potential is evaluated at the physical edge centres, the "
+         "dimensionless current density equals 4 (I_phys/length)/K0, the screening weights equal (mu0/4pi)(K0/A0) a_i xi^2 per length unit - expressions in "
+         "physical quantities only, hence unit independent. Lemma: the link exponents around any triangle in a uniform field sum to 2 pi flux/Phi_0 for any "
+         "recentring. Solution.field_at_position passes the DEVICE's length and current units to the Biot-Savart routine. 'Same dimensionless solution' is a "
+         "corollary (shared mesh; mu up to a constant); Solution.current_density only in the bounded native run.",
+    design_ref="DESIGN.md section 4 C08",
+    technique="contract-based deductive verification: symbolic unit scale factors (pint model) through the real constructor, VCs to z3 (nonlinear real arithmetic)",
+    note=TRUST + " pint itself is replaced by a model (assumed contract); Triangle meshing is not unit-covariant bit-wise (same dimensionless mesh assumed).")
+CLAIMS["C19"] = dict(
+    category="proof",
+    text="Raise-before-first-effect on the real code: the constructor (symbolic run) rejects epsilon > 1 at some site, a terminal of zero boundary length and "
+         "terminal currents unbalanced by more than 1e-6 of the largest (for arbitrary sample times), each before the operators are built, accepts only "
+         "well-posed input, and contains no file-creating call; SolverOptions.validate raises iff one of its documented inconsistencies holds (all branches, "
+         "symbolic fields); solve() raises the seed-device mismatch and option errors before DataHandler is constructed; Device.__eq__ (on which the seed check "
+         "relies) distinguishes devices that differ in any named component including a moved hole or reshaped terminal. Wrong-shape potentials, invalid polygons "
+         "and device definitions: bounded native run with directory listing.",
+    design_ref="DESIGN.md section 4 C19",
+    technique="contract-based deductive verification: exceptional postconditions ordered against effects on the real constructor / validate / solve; syntactic effect check",
+    note=TRUST + " Partially unbalanced callables can pass the sampled validation (limitation of the code, stated).")
+
 NA = {}
 
 checks = []
